@@ -130,6 +130,20 @@ Definition erase_b (b : list astmt) : block := map erase_s b.
 Definition erase_f (f : afunc) : func :=
   Func (map snd (af_params f)) (af_ctx f) (erase_b (af_body f)).
 
+(* every path through the block ends in a `return` (reaching_defs._always_returns) *)
+Fixpoint stmt_ret (st : astmt) : bool :=
+  let blk := fix blk (b : list astmt) : bool :=
+    match b with [] => false | [s] => stmt_ret s | _ :: r => blk r end in
+  match st with
+  | ASReturn _ => true
+  | ASIf _ _ t f => blk t && blk f
+  | ASContext _ _ body => blk body
+  | _ => false
+  end.
+
+Fixpoint blk_ret (b : list astmt) : bool :=
+  match b with [] => false | [s] => stmt_ret s | _ :: r => blk_ret r end.
+
 (* ---------------------------------------------------------------- events, the trace monad *)
 Inductive event :=
   | EvVal (a : A) (C : ctx) (v : value)
@@ -529,5 +543,6 @@ Arguments ASEffect {A}. Arguments ASReturn {A}. Arguments ASPass {A}.
 Arguments AFunc {A}. Arguments af_params {A}. Arguments af_ctx {A}. Arguments af_body {A}.
 Arguments EvVal {A}. Arguments EvUse {A}. Arguments EvDef {A}. Arguments EvPhi {A}.
 Arguments IONormal {A}. Arguments IOReturn {A}.
+Arguments stmt_ret {A}. Arguments blk_ret {A}.
 Arguments mret {A X}. Arguments mfail {A X}. Arguments liftr {A X}. Arguments mbind {A X Y}.
 Arguments done {A}.
